@@ -75,8 +75,8 @@ pub fn f1_step<const M: usize, const TOTAL: usize, const CUT: bool>() {
                 vassert!(NLOG == 0, "NEVER: [C07,C18] success although the global allocator refused");
                 // C01: inside the former free region => inside the chunk, below the
                 // footer, disjoint from every live block
-                vassert!(p >= data, "NEVER: [C01] block starts below the chunk");
-                vassert!(size <= ptr_old - p, "NEVER: [C01] block reaches into the allocated region (overlaps a live block or the footer)");
+                vassert!(p >= data, "NEVER: [C01,C19] block starts below the chunk");
+                vassert!(size <= ptr_old - p, "NEVER: [C01,C19] block reaches into the allocated region (overlaps a live block or the footer; more memory claimed than reserved)");
                 vassert!(p <= ptr_old, "NEVER: [C01] block above the old finger");
                 // C04
                 vassert!(p & (align - 1) == 0, "NEVER: [C04] requested alignment not honoured");
@@ -164,3 +164,6 @@ f1!(f1_fast_m2_16k, 2, 16432, 3, cut);
 f1!(f1_fast_m4_16k, 4, 16432, 3, cut);
 f1!(f1_fast_m8_16k, 8, 16432, 3, cut);
 f1!(f1_fast_m16_16k, 16, 16432, 3, cut);
+// END = 68 KiB (thorough): chunk sizes beyond a page-rounding step, every base residue mod 4096 many times over
+f1!(f1_fast_m1_68k, 1, 69680, 3, cut);
+f1!(f1_fast_m16_68k, 16, 69680, 3, cut);
